@@ -2,8 +2,9 @@
 // only the beginning of the text), and whose dependencies are in-memory packages too -- three VARIANTS of
 // example.com/c08dep (and of example.com/c08mid, which imports it) that share the import path and disagree about what the
 // names in it denote (two versions of a module in one workspace, a package and its test variant, two build
-// configurations). Two target packages per variant: one imports the dependency directly, one reaches it through c08mid
-// only (and has a stale copy on disk: the first part of its text).
+// configurations). Two target packages per variant: one imports the dependency directly (no file on disk, and the three
+// of them are parsed under ONE file name), one reaches it through c08mid only (and has a stale copy on disk: the first
+// part of its text).
 //
 // What this exercises: everything the runner does when the source text cannot be sliced from the file on disk (the
 // go/printer fallback of nodeText, for messages / Text filters / Do handlers), and everything that resolves a name
@@ -38,6 +39,10 @@ type Conf struct {
 
 type Level int
 
+// the same names carry different method sets in the variants
+func (Level) Error() string { return "level" }
+func (Conf) String() string { return "conf" }
+
 func NewConf() Conf { return Conf{} }
 
 var Default Handler
@@ -69,6 +74,8 @@ type Handler interface {
 type Conf struct{ P *int }
 
 type Level float64
+
+func (l *Level) Error() string { return "level" }
 
 func NewConf() Conf { return Conf{} }
 
@@ -127,7 +134,10 @@ func memCheck(fset *token.FileSet, imp types.Importer, pkgPath, filename, src st
 	return pkg, f, info, nil
 }
 
-var memLocalValues = []string{"vServer", "vWorker", "vCloser", "vPServer", "vSink", "vConf", "vHandler", "vLevel", "vLevels", "vPConf"}
+var memLocalValues = []string{"vServer", "vWorker", "vCloser", "vPServer", "vSink", "vConf", "vHandler", "vLevel", "vLevels", "vPConf", "vPLevel"}
+
+// mvuse1 .. mvuse<memUses>: the sinks of the hand-written rules on the dependency's names (natives.go, nvDepRules)
+const memUses = 9
 
 // memTargetSource: target k ("a": imports c08dep, "b": imports c08mid only) of variant v; nDo / nFlt: how many nd(i, x) /
 // nf(i, x) rules the natives file has
@@ -137,10 +147,10 @@ func memTargetSource(v int, k string, nDo, nFlt int) string {
 	var imp, vals string
 	if k == "a" {
 		imp = "\tdep \"" + memDepPath + "\"\n\tmid \"" + memMidPath + "\"\n"
-		vals = "var (\n\tvConf    = dep.NewConf()\n\tvHandler = dep.Default\n\tvLevel   = dep.Floor\n\tvLevels  []dep.Level\n\tvPConf   *dep.Conf\n\tvWrap    mid.Wrap\n)\n\nfunc (sink) Put(dep.Conf) {}\n"
+		vals = "var (\n\tvConf    = dep.NewConf()\n\tvHandler = dep.Default\n\tvLevel   = dep.Floor\n\tvLevels  []dep.Level\n\tvPConf   *dep.Conf\n\tvPLevel  = &vLevel\n\tvWrap    mid.Wrap\n)\n\nfunc (sink) Put(dep.Conf) {}\n"
 	} else {
 		imp = "\tmid \"" + memMidPath + "\"\n"
-		vals = "var (\n\tvConf    = mid.NewConf()\n\tvHandler = mid.DefaultHandler\n\tvLevel   = mid.DefaultLevel\n\tvLevels  = mid.Levels\n\tvPConf   = &vConf\n\tvWrap    mid.Wrap\n)\n\nfunc (sink) Put(int) {}\n"
+		vals = "var (\n\tvConf    = mid.NewConf()\n\tvHandler = mid.DefaultHandler\n\tvLevel   = mid.DefaultLevel\n\tvLevels  = mid.Levels\n\tvPConf   = &vConf\n\tvPLevel  = &vLevel\n\tvWrap    mid.Wrap\n)\n\nfunc (sink) Put(int) {}\n"
 	}
 	decls = strings.Replace(decls, "\t\"unsafe\"\n)", "\t\"unsafe\"\n\n"+imp+")", 1)
 	var b strings.Builder
@@ -177,7 +187,7 @@ var (
 `)
 	b.WriteString(vals)
 	b.WriteString("\nfunc nd(int, interface{}) {}\nfunc nf(int, interface{}) {}\nfunc mvdo(interface{})   {}\n")
-	for i := 1; i <= 7; i++ {
+	for i := 1; i <= memUses; i++ {
 		fmt.Fprintf(&b, "func mvuse%d(interface{}) {}\n", i)
 	}
 	b.WriteString("func miduse1(interface{}) {}\nfunc miduse2(interface{}) {}\n")
@@ -197,7 +207,7 @@ var (
 	}
 	b.WriteString("}\n")
 	fmt.Fprintf(&b, "\nfunc deps%d%s() { // nolint\n", v, k)
-	for i := 1; i <= 7; i++ {
+	for i := 1; i <= memUses; i++ {
 		for j, val := range memLocalValues {
 			if (i+j+rot)%3 != 0 || j < 5 {
 				fmt.Fprintf(&b, "\tmvuse%d(%s)\n", i, val)
@@ -234,6 +244,11 @@ func checkMemTargets(dir string, fset *token.FileSet, std types.Importer, nDo, n
 			name := fmt.Sprintf("mt%d%s", v, k)
 			src := memTargetSource(v, k, nDo, nFlt)
 			path := filepath.Join(dir, "mem", name, name+".go")
+			if k == "a" {
+				// no file at all, and ONE file name for the three of them (editor buffers / generated files handed in
+				// under a relative name): what belongs to a file is not what belongs to a file NAME
+				path = filepath.Join(dir, "mem", "buffer", "input.go")
+			}
 			if k == "b" {
 				// a stale copy on disk: the text up to the second function body (what an editor buffer looks like next to the
 				// saved file); nodes inside it are sliced from the file, the others go through the printer
